@@ -938,7 +938,7 @@ def correspond_x(check):
     return cov
 
 
-def direct_x(check):
+def direct_x(check, leaks=False):
     """The scheduler properties on the binary: no deadlock (watchdog), hook assertions
     (queue capacities, counters), order (output equals the plain text), heap bound."""
     from concurrent.futures import ThreadPoolExecutor
@@ -974,6 +974,8 @@ def direct_x(check):
                 viols.append(Violation("heap-bound", "peak live heap %d bytes at n=%d exceeds B(n)=%d" % (h[1], n, bound),
                                        {"input_hex": big.data.hex(), "n": n, "kind": "heap"}))
     check.notes.append("direct_x: peak live heap by worker count (decompression): %s" % peaks)
+    if leaks:
+        viols += hunt_f3(check, runs=24 if check.tier == "quick" else 100)
     return viols
 
 
